@@ -1728,6 +1728,18 @@ enum PostMonitorUpdateChanResume {
 	},
 }
 
+/// What remains to be done once a [`ChannelMonitorUpdate`] applied through
+/// `apply_post_close_monitor_update_without_completion` has completed, after locks are released.
+#[must_use]
+enum PostCloseMonitorUpdateCompletion {
+	/// The update is still in flight (or nothing is left to do).
+	None,
+	/// The channel is still open and its updates completed: resume it.
+	ChanResume(PostMonitorUpdateChanResume),
+	/// The channel is closed: run the post-update actions.
+	Actions(Vec<MonitorUpdateCompletionAction>),
+}
+
 #[derive(Clone, Debug, PartialEq, Eq)]
 pub(crate) struct PaymentCompleteUpdate {
 	counterparty_node_id: PublicKey,
@@ -4502,6 +4514,37 @@ impl<
 		&self, counterparty_node_id: PublicKey, channel_id: ChannelId, funding_txo: OutPoint,
 		monitor_update: ChannelMonitorUpdate,
 	) {
+		let completion = self.apply_post_close_monitor_update_without_completion(
+			counterparty_node_id,
+			channel_id,
+			funding_txo,
+			monitor_update,
+		);
+		self.handle_post_close_monitor_update_completion(completion);
+	}
+
+	/// Handles whatever [`Self::apply_post_close_monitor_update_without_completion`] left to do.
+	fn handle_post_close_monitor_update_completion(
+		&self, completion: PostCloseMonitorUpdateCompletion,
+	) {
+		match completion {
+			PostCloseMonitorUpdateCompletion::None => {},
+			PostCloseMonitorUpdateCompletion::ChanResume(data) => {
+				let _ = self.handle_post_monitor_update_chan_resume(data);
+			},
+			PostCloseMonitorUpdateCompletion::Actions(actions) => {
+				self.handle_monitor_update_completion_actions(actions);
+			},
+		}
+	}
+
+	/// Hands `monitor_update` to the [`chain::Watch`] like [`Self::apply_post_close_monitor_update`]
+	/// but, if the update completed, returns what remains to be done rather than doing it, so that
+	/// the caller may first bring other channels up to date.
+	fn apply_post_close_monitor_update_without_completion(
+		&self, counterparty_node_id: PublicKey, channel_id: ChannelId, funding_txo: OutPoint,
+		monitor_update: ChannelMonitorUpdate,
+	) -> PostCloseMonitorUpdateCompletion {
 		// Note that there may be some post-close updates which need to be well-ordered with
 		// respect to the `update_id`, so we hold the `peer_state` lock here.
 		let per_peer_state = self.per_peer_state.read().unwrap();
@@ -4521,11 +4564,9 @@ impl<
 						funding_txo,
 						monitor_update,
 					) {
-						mem::drop(peer_state_lock);
-						mem::drop(per_peer_state);
-						let _ = self.handle_post_monitor_update_chan_resume(data);
+						return PostCloseMonitorUpdateCompletion::ChanResume(data);
 					}
-					return;
+					return PostCloseMonitorUpdateCompletion::None;
 				} else {
 					debug_assert!(false, "We shouldn't have an update for a non-funded channel");
 				}
@@ -4541,10 +4582,9 @@ impl<
 			counterparty_node_id,
 			channel_id,
 		) {
-			mem::drop(peer_state_lock);
-			mem::drop(per_peer_state);
-			self.handle_monitor_update_completion_actions(actions);
+			return PostCloseMonitorUpdateCompletion::Actions(actions);
 		}
+		PostCloseMonitorUpdateCompletion::None
 	}
 
 	/// When a channel is removed, two things need to happen:
@@ -9227,6 +9267,37 @@ impl<
 			return NotifyOption::SkipPersistNoEvents;
 		}
 
+		// Handling the completion of one channel's updates can release a blocked update on
+		// another channel (e.g. the RAA held until a forwarded claim is durable). That update
+		// must see the other channel as it really is, so first bring every channel up to date:
+		// replay regenerated in-flight updates before anything else, and stop tracking in-flight
+		// updates which we already know have completed (they were only kept so that the
+		// `MonitorUpdatesComplete` event below is regenerated if we are serialized before it is
+		// handled).
+		background_events.sort_by_key(|event| match event {
+			BackgroundEvent::MonitorUpdateRegeneratedOnStartup { .. } => 0,
+			_ => 1,
+		});
+		for event in background_events.iter() {
+			if let BackgroundEvent::MonitorUpdatesComplete {
+				counterparty_node_id,
+				channel_id,
+				highest_update_id_completed,
+			} = event
+			{
+				let per_peer_state = self.per_peer_state.read().unwrap();
+				if let Some(peer_state_mutex) = per_peer_state.get(counterparty_node_id) {
+					let mut peer_state = peer_state_mutex.lock().unwrap();
+					if let Some((_, pending)) =
+						peer_state.in_flight_monitor_updates.get_mut(channel_id)
+					{
+						pending.retain(|upd| upd.update_id > *highest_update_id_completed);
+					}
+				}
+			}
+		}
+
+		let mut regenerated_update_completions = Vec::new();
 		for event in background_events.drain(..) {
 			match event {
 				BackgroundEvent::MonitorUpdateRegeneratedOnStartup {
@@ -9235,13 +9306,25 @@ impl<
 					channel_id,
 					update,
 				} => {
-					self.apply_post_close_monitor_update(
-						counterparty_node_id,
-						channel_id,
-						funding_txo,
-						update,
+					// Even if the update completes immediately, hold off on acting on that until
+					// all the other regenerated updates (which come first) have been replayed.
+					regenerated_update_completions.push(
+						self.apply_post_close_monitor_update_without_completion(
+							counterparty_node_id,
+							channel_id,
+							funding_txo,
+							update,
+						),
 					);
+					continue;
 				},
+				_ => {},
+			}
+			for completion in regenerated_update_completions.drain(..) {
+				self.handle_post_close_monitor_update_completion(completion);
+			}
+			match event {
+				BackgroundEvent::MonitorUpdateRegeneratedOnStartup { .. } => unreachable!(),
 				BackgroundEvent::MonitorUpdatesComplete {
 					counterparty_node_id,
 					channel_id,
@@ -9265,6 +9348,9 @@ impl<
 					self.handle_monitor_update_release(counterparty_node_id, channel_id, None);
 				},
 			}
+		}
+		for completion in regenerated_update_completions.drain(..) {
+			self.handle_post_close_monitor_update_completion(completion);
 		}
 		NotifyOption::DoPersist
 	}
